@@ -400,7 +400,7 @@ def rule_r2(facts, rep, rid="C09-R2"):
     rep.saw_fn(rn)
     t = _cs(rn, rn.body)
     key = rn.def_ + "|filters-only-target"
-    if re.search(r"\.filter\(\|c0\|!c0\.id_eq\(P1\)\)", t) and re.search(r"\.map\(\|c0\|c0\.remove_node\(P1\)\)", t) and t.count(".filter(") == 1:
+    if re.search(r"\.filter\(\|c0\|!c0\.id_eq\(P1\)\)", t) and re.search(r"\.map\(\|c0\|c0\.remove_node\(P1\)\)", t) and len([x_ for x_ in fb.walk(rn.body) if x_.get("k") == "mcall" and x_["name"] == "filter"]) == 1:
         rep.ok(rid, key, "children.filter(!id_eq(target)).map(recursive)", rn.loc)
     else:
         rep.violation(rid, key, "Tree::remove_node does not remove exactly the node with the target id (it must filter `!child.id_eq(target)` and recurse into every remaining child)", rn.loc)
@@ -415,7 +415,7 @@ def rule_r2(facts, rep, rid="C09-R2"):
         if guards and _cs(ap, guards[0]["c"]) == "self.id_eq(P1)" and _cs(ap, ins[0]["args"][0]) == "self.pre_sub_header_position()":
             okp = True
     t_ap = _cs(ap, ap.body)
-    rec_all = re.search(r"\.map\(\|c0\|c0\.append_pre_header\(P1,P2(\.clone\(\))?\)\)", t_ap) is not None and ".filter(" not in t_ap
+    rec_all = re.search(r"\.map\(\|c0\|c0\.append_pre_header\(P1,P2(\.clone\(\))?\)\)", t_ap) is not None and not any(x_.get("k") == "mcall" and x_["name"] == "filter" for x_ in fb.walk(ap.body))
     if okp and not rec_all:
         rep.violation(rid, ap.def_ + "|recurses-into-every-child", "Tree::append_pre_header does not recurse into every child unconditionally (`children.map(|c| c.append_pre_header(target, new))`): "
                       "a target below a child that is skipped (a list item under a list, a block in a quote) is never reached, so the inlined content is inserted nowhere while the inlined note is deleted", ap.loc)
